@@ -11,7 +11,7 @@ RULE = ("Hypothesis draws a routine (norm plain/squared with autograd off/on-by-
         "real/complex/float32, zero tensors, integer (exact where every partial sum is below the mantissa) or Gaussian "
         "payload. Oracle: the dense reduction on the checker's own contraction, including the result *shape*. "
         "Non-trivial: some rank>1 and, for subset reductions, a strict non-empty subset. Distinct = structural signature.")
-BUDGET = {"quick": 12000, "thorough": 240000}
+BUDGET = {"quick": 12000, "thorough": 600000}
 FLOORS = {"quick": {"op:norm": 500, "op:sum_idx": 500, "op:dot_axis": 500, "op:bilinear": 300, "order:1": 300,
                     "kept_singleton_mode": 100, "zero": 100, "operator": 500}}
 ASSUMPTIONS = ["dot conjugates its second argument and bilinear_form its first (the implemented, anchored convention)",
